@@ -80,3 +80,13 @@ func extractHists(v interface{}) []hist {
 	walk(v)
 	return out
 }
+
+// guard runs one case; a panic inside the implementation is a failure of that case, not of the harness.
+func (c *Ctx) guard(rel string, desc interface{}, fn func()) {
+	defer func() {
+		if r := recover(); r != nil {
+			c.Fail("oracle", rel, desc, fmt.Sprintf("the implementation panicked: %v", r), "")
+		}
+	}()
+	fn()
+}
